@@ -141,6 +141,18 @@ def c01(R):
                 if kind == "pi": dv = float(np.abs(np.asarray(st.values) - vd).max()); lim = eps / g; what = "values not within eps/gamma of the policy's own value"
                 else: dv = float(np.abs(np.asarray(st.values) - vstar).max()); lim = eps; what = "values not within eps of the optimal values"
                 if dv > lim * (1 + 1e-6) + 1e-9: R.fail("c01.values_near", what, inp, dv, lim)
+    # value magnitudes far above the action gaps (large reward offset; "regardless of ties": a near-tie is not a tie): ring MDP, moving on is optimal for every offset
+    for offset in (0.0, 1e6):
+        Nr = 4; ns = np.array([[[s_], [(s_ + 1) % Nr]] for s_ in range(Nr)]); r = np.array([[[offset], [offset + 1 + 0.1 * s_]] for s_ in range(Nr)]); p = np.ones((Nr, 2, 1)); g, eps = 0.9, 0.01
+        vstar = optimal_values(ns, r, p, g, tol=1e-9)
+        for kind, test in [("vi", "span"), ("pi", "span"), ("pi", "max_diff"), ("sa", "max_diff")]:
+            if kind == "vi": s = VI(Tab(ns, r, p), gamma=g, epsilon=eps, verbose=0, convergence_test=test); bound = eps
+            elif kind == "pi": s = PI(Tab(ns, r, p), gamma=g, epsilon=eps, verbose=0, convergence_test=test, max_eval_iter=2000); bound = eps / g if test == "span" else 2 * eps / g
+            else: s = SA(Tab(ns, r, p), gamma=g, epsilon=eps, verbose=0, convergence_test=test, max_batch_size=2); bound = 2 * g * eps / (1 - g)
+            st = s.solve(5000); inp = desc(Nr, 2, 1, solver=kind, test=test, gamma=g, epsilon=eps, reward_offset=offset, note="ring: stay pays offset, move on pays offset + 1 + 0.1 s", **tables(ns, r, p)); R.case((kind, test, "offset", offset), {x: inp[x] for x in ("solver", "test", "reward_offset")})
+            if int(st.info.iteration) >= 5000: continue
+            pol = np.asarray(st.policy)[:, 0]; gap = float((vstar - policy_value(ns, r, p, g, pol)).max())
+            if gap > bound * (1 + 1e-6) + 1e-6 * max(1.0, offset) * 1e-3: R.fail("c01.policy_near_optimal", f"converged policy misses the a-priori bound {bound:.3g} (value magnitude far above the action gaps)", inp, gap, bound)
     # "on convergence" includes runs that were restored from a checkpoint and continued (the bound is about the state the solver stops in)
     import tempfile, shutil, os
     from mdpax.problems import Forest
@@ -235,6 +247,14 @@ def c05(R):
             st = s.solve(200); V = np.asarray(st.values); polr = np.asarray(st.policy); Qm = Qf(ns, r, p, g, V)
             if int(st.info.iteration) < 200 and not all(abs(Qm[i, int(polr[i, 0])] - Qm[i].max()) <= 1e-9 * max(1, abs(Qm[i].max())) for i in range(N)):
                 R.fail("c05.returned_policy_greedy", "returned policy is not greedy w.r.t. the returned values", inp, polr, Qm.argmax(1))
+    # greedy means greedy also when the values are huge compared with the action gaps (a near-tie is not a tie)
+    for offset in (1e6, -1e6):
+        Nr = 4; ns = np.array([[[s_], [(s_ + 1) % Nr]] for s_ in range(Nr)]); r = np.array([[[offset], [offset + 1 + 0.1 * s_]] for s_ in range(Nr)]); p = np.ones((Nr, 2, 1)); g = 0.9
+        for test in ("span", "max_diff"):
+            st = PI(Tab(ns, r, p), gamma=g, epsilon=0.01, verbose=0, convergence_test=test, max_eval_iter=2000).solve(200); V = np.asarray(st.values); polr = np.asarray(st.policy); Qm = Qf(ns, r, p, g, V)
+            inp = desc(Nr, 2, 1, gamma=g, epsilon=0.01, test=test, reward_offset=offset, note="ring: stay pays offset, move on pays offset + 1 + 0.1 s", **tables(ns, r, p)); R.case(("offset", offset, test), {x: inp[x] for x in ("test", "reward_offset")})
+            if int(st.info.iteration) < 200 and not all(Qm[i, int(polr[i, 0])] >= Qm[i].max() - 1e-3 for i in range(Nr)):
+                R.fail("c05.returned_policy_greedy", "returned policy is not greedy w.r.t. the returned values (value magnitude far above the action gaps)", inp, polr[:, 0], Qm.argmax(1))
     return R
 
 # ----------------------------------------------------------------------------------------------------------------- C06
